@@ -12,10 +12,10 @@ class C32(M.MpiCheck):
             'results and one message were checked. Distinct: event-order hash.')
     prof = dict(name='C32', np=(1, 12), nmsg=dict(quick=(4, 24), thorough=(4, 30)), ncomm=(1, 4), groups=True, wild=0.5,
                 probes=0.5, midcoll=1, types='basic', cap=5000, free_comms=True, cross=1.5)
-    own = ('split-', 'dup-', 'create-', 'group-', 'translate', 'compare', 'cross-comm', 'match-')
-    max_reported = 10
+    own = ('split-', 'dup-', 'create-', 'group-', 'inter-order', 'translate', 'compare', 'cross-comm', 'match-comm')
+    max_reported = 4
     probes = M.MpiCheck.probes + ('probe_wildcard_choice>1',)
-    budgets = {'quick': dict(runs=1200, wall=40), 'thorough': dict(runs=20000, wall=780)}
+    budgets = {'quick': dict(runs=1200, wall=22), 'thorough': dict(runs=20000, wall=780)}
 
     def nontrivial(self, plan, res):
         return res['stats'].get('comm_steps_checked', 0) >= 3
